@@ -69,7 +69,7 @@ pub use interface::*;
 pub mod verif {
     pub use crate::navigate::{verif_nav_state, verif_take_nav_log};
     pub use crate::braille::verif_last_braille;
-    pub use crate::canonicalize::verif_number_patterns;
+    pub use crate::canonicalize::{verif_number_patterns, verif_clean_only};
     pub use crate::speech::verif_take_join_log;
     pub use crate::prefs::verif_rule_files;
     pub use crate::shim_filesystem::verif_take_read_log;
